@@ -1070,16 +1070,25 @@ FRESH_METHODS = {"copy", "items", "values", "keys"}
 ELEM_METHODS = {"get"}
 
 
+HANDLE = "@handle"
+
+
 class WriteScan:
     """one function: which handle attributes (or handle-reachable parameters) does it mutate in place?
-    taint of a value = set of (attribute, level): 'obj' the very object the handle holds, 'elem' a part of it,
-    'fresh' a new container whose items are parts of it (mutating the container is fine, mutating an item is not)"""
+    taint of a value = {attribute: depth}: depth 0 = the object the handle holds for that attribute or a part of it (mutating
+    it is a write), depth k > 0 = a FRESH object whose parts k levels down are shared with it (copy.copy(x), list(x), x[:],
+    [copy.copy(c) for c in x] ...): descending (item, attribute, iteration) lowers the depth, mutation counts at depth 0.
+    The pseudo attribute HANDLE marks a value that IS a handle (depth 0) or a collection of handles (depth 1): loading an
+    attribute of a handle yields that attribute's object."""
 
-    def __init__(self, fn, handle, obj_params=(), ret_taint=None):
+    def __init__(self, fn, handle, obj_params=(), ret_taint=None, handle_collections=()):
         self.fn, self.handle, self.ret = fn, handle, ret_taint or {}
-        self.t = {p: {(p, "obj")} for p in obj_params}
+        self.t = {p: {p: 0} for p in obj_params}
+        for p in handle_collections:
+            self.t[p] = {HANDLE: 1}
+        self.fields = {}        # (local, attribute) -> taint assigned to local.attribute
         self.hits = []          # (attribute, line, what)
-        self.returns = set()
+        self.returns = {}
         self.sub_memos = set()
         for _ in range(2):      # two passes: taints assigned later in a loop body reach earlier statements
             self.hits = []
@@ -1087,78 +1096,121 @@ class WriteScan:
                 self.stmt(st)
 
     @staticmethod
-    def lvl(t, f):
-        return {(a, f(l)) for a, l in t}
+    def join(*ts):
+        out = {}
+        for t in ts:
+            for a, d in t.items():
+                out[a] = min(d, out.get(a, d))
+        return out
+
+    @staticmethod
+    def down(t):
+        return {a: max(d - 1, 0) for a, d in t.items()}
+
+    @staticmethod
+    def fresh(t):
+        """a new container holding the ITEMS of a value of taint t (list(x), x[:], copy.copy(x), x.items())"""
+        return {a: max(d, 1) for a, d in t.items() if a != HANDLE} | ({HANDLE: max(t[HANDLE], 1)} if HANDLE in t else {})
+
+    @staticmethod
+    def wrap(t):
+        """a new container whose items have taint t ([e for ...], (a, b), {k: v})"""
+        return {a: d + 1 for a, d in t.items()}
+
+    def attr_of(self, base, attr):
+        out = {}
+        if base.get(HANDLE) == 0:
+            out = self.join(out, dict(self.ret[attr]) if attr in self.ret else {attr: 0})
+        rest = {a: d for a, d in base.items() if a != HANDLE}
+        return self.join(out, self.down(rest))
 
     def ev(self, n):
         if n is None:
-            return set()
+            return {}
         if isinstance(n, ast.Attribute):
-            if isinstance(n.value, ast.Name) and n.value.id == self.handle:
-                if n.attr in self.ret:
-                    return set(self.ret[n.attr])
-                return {(n.attr, "obj")}
-            return self.lvl(self.ev(n.value), lambda l: "elem")
+            if isinstance(n.value, ast.Name):
+                if n.value.id == self.handle:
+                    return dict(self.ret[n.attr]) if n.attr in self.ret else {n.attr: 0}
+                if (n.value.id, n.attr) in self.fields:
+                    return dict(self.fields[(n.value.id, n.attr)])
+            return self.attr_of(self.ev(n.value), n.attr)
         if isinstance(n, ast.Subscript):
             b = self.ev(n.value)
+            self.ev(n.slice) if not isinstance(n.slice, ast.Slice) else None
             if isinstance(n.slice, ast.Slice):
-                return self.lvl(b, lambda l: "fresh")
-            return self.lvl(b, lambda l: "elem")
+                return self.fresh(b)
+            return self.down(b)
         if isinstance(n, ast.Name):
-            return set(self.t.get(n.id, ()))
+            if n.id == self.handle:
+                return {HANDLE: 0}
+            return dict(self.t.get(n.id, {}))
         if isinstance(n, ast.Call):
             f = n.func
             args = list(n.args) + [k.value for k in n.keywords]
             self.scan_call(n)
             if isinstance(f, ast.Name) and f.id in FRESH_FUNCS:
-                return self.lvl(set().union(*[self.ev(a) for a in args]) if args else set(), lambda l: "fresh")
+                return self.fresh(self.join(*[self.ev(a) for a in args]))
             if isinstance(f, ast.Attribute):
                 if isinstance(f.value, ast.Name) and f.value.id == self.handle:
                     for a in args:
                         self.ev(a)
-                    return set(self.ret.get(f.attr, ()))
+                    return dict(self.ret.get(f.attr, {}))
                 if isinstance(f.value, ast.Name) and f.value.id == "copy" and f.attr == "copy":
-                    return self.lvl(set().union(*[self.ev(a) for a in args]) if args else set(), lambda l: "fresh")
+                    return self.fresh(self.join(*[self.ev(a) for a in args]))
                 if f.attr in FRESH_METHODS:
-                    return self.lvl(self.ev(f.value), lambda l: "fresh")
+                    return self.fresh(self.ev(f.value))
                 if f.attr in ELEM_METHODS or f.attr in ("pop", "setdefault"):
-                    return self.lvl(self.ev(f.value), lambda l: "elem")
+                    for a in args:
+                        self.ev(a)
+                    return self.down(self.ev(f.value))
+                bt = self.ev(f.value)
+                if bt.get(HANDLE) == 0:
+                    for a in args:
+                        self.ev(a)
+                    return dict(self.ret.get(f.attr, {}))
             for a in args:
                 self.ev(a)
-            if isinstance(f, ast.Attribute):
-                self.ev(f.value)
-            return set()
+            return {}
         if isinstance(n, (ast.ListComp, ast.SetComp, ast.GeneratorExp, ast.DictComp)):
             for g in n.generators:
-                ti = self.lvl(self.ev(g.iter), lambda l: "elem")
-                for x in ast.walk(g.target):
-                    if isinstance(x, ast.Name):
-                        self.t.setdefault(x.id, set()).update(ti)
+                self.bind(g.target, self.down(self.ev(g.iter)))
                 for c in g.ifs:
                     self.ev(c)
             if isinstance(n, ast.DictComp):
                 self.ev(n.key)                      # (keys are hashable, hence immutable: only the values can alias)
             inner = self.ev(n.value) if isinstance(n, ast.DictComp) else self.ev(n.elt)
-            return self.lvl(inner, lambda l: "fresh")
+            return self.wrap(inner)
         if isinstance(n, (ast.Tuple, ast.List, ast.Set)):
-            return self.lvl(set().union(*[self.ev(e) for e in n.elts]) if n.elts else set(), lambda l: "fresh")
+            return self.wrap(self.join(*[self.ev(e) for e in n.elts]))
         if isinstance(n, ast.Dict):
-            return self.lvl(set().union(*[self.ev(e) for e in n.values if e is not None]) if n.values else set(), lambda l: "fresh")
+            return self.wrap(self.join(*[self.ev(e) for e in n.values if e is not None]))
         if isinstance(n, ast.IfExp):
             self.ev(n.test)
-            return self.ev(n.body) | self.ev(n.orelse)
+            return self.join(self.ev(n.body), self.ev(n.orelse))
         if isinstance(n, ast.BoolOp):
-            return set().union(*[self.ev(e) for e in n.values])
+            return self.join(*[self.ev(e) for e in n.values])
         if isinstance(n, ast.Starred):
             return self.ev(n.value)
         if isinstance(n, ast.NamedExpr):
             v = self.ev(n.value)
-            self.t.setdefault(n.target.id, set()).update(v)
+            self.t[n.target.id] = v
             return v
         for ch in ast.iter_child_nodes(n):
             if isinstance(ch, ast.expr):
                 self.ev(ch)
-        return set()
+        return {}
+
+    @staticmethod
+    def not_handles(test):
+        if (isinstance(test, ast.Call) and getattr(test.func, "id", None) == "all" and len(test.args) == 1
+                and isinstance(test.args[0], ast.GeneratorExp) and len(test.args[0].generators) == 1):
+            g = test.args[0]
+            e = g.elt
+            if (isinstance(e, ast.UnaryOp) and isinstance(e.op, ast.Not) and isinstance(e.operand, ast.Call)
+                    and getattr(e.operand.func, "id", None) == "isinstance" and len(e.operand.args) == 2
+                    and "ParquetFile" in ast.dump(e.operand.args[1]) and isinstance(g.generators[0].iter, ast.Name)):
+                return g.generators[0].iter.id
+        return None
 
     def guarded_memo(self, local, key):
         for n in ast.walk(self.fn):
@@ -1171,8 +1223,8 @@ class WriteScan:
         return False
 
     def hit(self, taint, node, what):
-        for a, l in sorted(taint):
-            if l in ("obj", "elem"):
+        for a, d in sorted(taint.items()):
+            if d == 0 and a != HANDLE:
                 self.hits.append((a, getattr(node, "lineno", 0), what))
 
     def scan_call(self, n):
@@ -1181,13 +1233,18 @@ class WriteScan:
             if isinstance(f.value, ast.Name) and f.value.id == self.handle:
                 return
             self.hit(self.ev(f.value), n, "." + f.attr + "()")
+            if isinstance(f.value, ast.Name) and f.attr in ("append", "insert", "add", "extend", "update") and n.args:
+                # a local container grows by items that may be parts of handle objects
+                at = self.ev(n.args[-1])
+                add = self.fresh(at) if f.attr in ("extend", "update") else self.wrap(at)
+                self.t[f.value.id] = self.join(self.t.get(f.value.id, {}), add) if self.t.get(f.value.id) else dict(add)
 
-    def store(self, target, node):
+    def store(self, target, node, tv):
         if isinstance(target, (ast.Tuple, ast.List)):
             for e in target.elts:
-                self.store(e, node)
+                self.store(e, node, self.down(tv))
         elif isinstance(target, ast.Starred):
-            self.store(target.value, node)
+            self.store(target.value, node, tv)
         elif isinstance(target, (ast.Subscript, ast.Attribute)):
             if isinstance(target, ast.Attribute) and isinstance(target.value, ast.Name) and target.value.id == self.handle:
                 return          # handle.attr = ...: an attribute assignment (memo fill / reset), the inventory's business
@@ -1197,14 +1254,22 @@ class WriteScan:
                 # from the handle (the converted statistics of a column chunk): a function of that struct and of the schema
                 self.sub_memos.add(_const(target.slice))
                 return
-            self.hit(self.ev(target.value), node, "item/attribute assignment")
+            base = self.ev(target.value)
+            if base.get(HANDLE) == 0 and isinstance(target, ast.Attribute):
+                # <a handle that is not `self`>.attr = ...  (e.g. pf.fmd = ... on an INPUT handle): a write to that handle
+                self.hits.append((target.attr, getattr(node, "lineno", 0), "attribute assignment on an input handle"))
+            self.hit(base, node, "item/attribute assignment")
+            if isinstance(target, ast.Attribute) and isinstance(target.value, ast.Name):
+                self.fields[(target.value.id, target.attr)] = dict(tv)      # local.attr now holds the assigned value
 
-    def bind(self, target, tv, elemwise=False):
+    def bind(self, target, tv):
         if isinstance(target, ast.Name):
-            self.t.setdefault(target.id, set()).update(tv)
+            self.t[target.id] = dict(tv)                                    # strong update, in program order
+            for k in [k for k in self.fields if k[0] == target.id]:
+                del self.fields[k]
         elif isinstance(target, (ast.Tuple, ast.List)):
             for e in target.elts:
-                self.bind(e, self.lvl(tv, lambda l: "elem"))
+                self.bind(e, self.down(tv))
         elif isinstance(target, ast.Starred):
             self.bind(target.value, tv)
 
@@ -1212,14 +1277,14 @@ class WriteScan:
         if isinstance(st, ast.Assign):
             tv = self.ev(st.value)
             for t in st.targets:
-                self.store(t, st)
+                self.store(t, st, tv)
                 self.bind(t, tv)
         elif isinstance(st, ast.AugAssign):
             self.ev(st.value)
             if isinstance(st.target, ast.Name):
                 self.hit(self.ev(st.target), st, "augmented assignment (in place for lists/arrays)")
             else:
-                self.store(st.target, st)
+                self.store(st.target, st, {})
         elif isinstance(st, ast.AnnAssign):
             if st.value is not None:
                 self.bind(st.target, self.ev(st.value))
@@ -1227,17 +1292,28 @@ class WriteScan:
             self.ev(st.value)
         elif isinstance(st, ast.Return):
             if st.value is not None:
-                self.returns |= self.ev(st.value)
+                self.returns = self.join(self.returns, self.ev(st.value))
         elif isinstance(st, ast.Delete):
             for t in st.targets:
                 if isinstance(t, (ast.Subscript, ast.Attribute)) and not (isinstance(t.value, ast.Name) and t.value.id == self.handle and isinstance(t, ast.Attribute)):
                     self.hit(self.ev(t.value), st, "del")
         elif isinstance(st, ast.If) or isinstance(st, ast.While):
             self.ev(st.test)
-            for s_ in st.body + st.orelse:
+            before = {k: dict(v) for k, v in self.t.items()}
+            nh = self.not_handles(st.test)
+            if nh is not None and nh in self.t:
+                # `all(not isinstance(x, ParquetFile) for x in NAME)`: inside the branch NAME holds no handle
+                self.t[nh] = {a: d for a, d in self.t[nh].items() if a != HANDLE}
+            for s_ in st.body:
                 self.stmt(s_)
+            after_body = self.t
+            self.t = before
+            for s_ in st.orelse:
+                self.stmt(s_)
+            for k in set(after_body) | set(self.t):       # join of the two branches
+                self.t[k] = self.join(after_body.get(k, {}), self.t.get(k, {}))
         elif isinstance(st, (ast.For, ast.AsyncFor)):
-            self.bind(st.target, self.lvl(self.ev(st.iter), lambda l: "elem"))
+            self.bind(st.target, self.down(self.ev(st.iter)))
             for s_ in st.body + st.orelse:
                 self.stmt(s_)
         elif isinstance(st, (ast.With, ast.AsyncWith)):
@@ -1259,6 +1335,10 @@ class WriteScan:
 
 HANDLE_PARAMS = {"pf", "obj"}
 OBJ_PARAMS = {"rg", "cats", "schema_helper", "schema", "partition_meta", "categories", "helper", "se", "fmd"}
+# parameters that may hold a LIST of handles (ParquetFile([pf_a, pf_b]), merge([...])): the inputs must come out untouched
+HANDLE_COLLECTIONS = {"file_list", "pfs"}
+# module-level functions that EDIT the handle they are given (C16's subject), not observers
+MODULE_MUTATORS = {"update_custom_metadata"}
 
 
 def observer_writes(repo, tree, methods, not_observers):
@@ -1267,7 +1347,7 @@ def observer_writes(repo, tree, methods, not_observers):
     for _ in range(2):
         for name, fn in methods.items():
             ws = WriteScan(fn, "self", (), ret)
-            ret[name] = {(a, l) for a, l in ws.returns}
+            ret[name] = dict(ws.returns)
     out, where = {}, {}
     for name, fn in methods.items():
         if name in not_observers:
@@ -1276,21 +1356,23 @@ def observer_writes(repo, tree, methods, not_observers):
         out[name] = sorted({a for a, _, _ in ws.hits})
         where.update({(name, a): (ln, w) for a, ln, w in ws.hits})
     mods = [("api", tree)]
-    cpath = os.path.join(repo, "fastparquet", "core.py")
-    if os.path.exists(cpath):
-        mods.append(("core", ast.parse(open(cpath).read())))
+    for mod in ("core", "util", "writer"):
+        mpath = os.path.join(repo, "fastparquet", mod + ".py")
+        if os.path.exists(mpath):
+            mods.append((mod, ast.parse(open(mpath).read())))
     for mod, tr in mods:
         for fn in tr.body:
-            if not isinstance(fn, ast.FunctionDef):
+            if not isinstance(fn, ast.FunctionDef) or fn.name in MODULE_MUTATORS:
                 continue
             params = [a.arg for a in fn.args.args + fn.args.kwonlyargs]
             if not params:
                 continue
             handle = params[0] if params[0] in HANDLE_PARAMS else "\0"
-            objs = [p for p in params if p in OBJ_PARAMS]
-            if handle == "\0" and not objs:
+            objs = [p for p in params if p in OBJ_PARAMS] if mod in ("api", "core") else []
+            colls = [p for p in params if p in HANDLE_COLLECTIONS]
+            if handle == "\0" and not objs and not colls:
                 continue
-            ws = WriteScan(fn, handle, objs, ret if handle != "\0" else {})
+            ws = WriteScan(fn, handle, objs, ret, colls)
             nm = "%s.%s" % (mod, fn.name)
             out[nm] = sorted({a for a, _, _ in ws.hits})
             where.update({(nm, a): (ln, w) for a, ln, w in ws.hits})
